@@ -61,11 +61,13 @@ def block_of(spec, name):
 
 
 def start_labels(b):
-    ls = [b["n"]] + list(b.get("ls", ()))
+    ls = ([] if b.get("anon") else [b["n"]]) + list(b.get("ls", ()))
     return ls
 
 
 def func_label(b):
+    if b.get("anon") or b.get("nofl"):
+        return None  # derived specs list the function symbol among the ordinary labels
     return "F_" + b["f"] if b.get("f") and b.get("e") and b["k"] == "c" else None
 
 
@@ -125,8 +127,15 @@ def patch_tokens(isa_, patch, mid, func, bk, suffix=None):
             toks.append({"t": "ins", "ins": ("d", v), "uid": ("patch", mid, j), "f": None, "bk": "d", "ann": {}, "blk": None})
         return toks
     j = 0
+
+    def tl(name):
+        # temporary labels are private to one patch invocation
+        return "%s@%d" % (name, mid) if isinstance(name, str) and name.startswith(".L") else name
+
     for pt in patch:
         pt = T(pt)
+        if len(pt) == 2 and pt[0] in ("jmp", "jcc", "call", "lea", "q", "lab"):
+            pt = (pt[0], tl(pt[1]))
         if pt[0] == "lab":
             toks.append({"t": "lab", "n": pt[1], "own": ("patch", mid), "end": False, "patch": mid})
         elif pt[0] == "cfi":
@@ -174,6 +183,12 @@ def apply_model(spec, mods):
         toks = secs[sname]
         f = b.get("f") if (b["k"] == "c" and spec.get("functions", True)) else None
         pt = patch_tokens(isa_, m["p"], mid, f, b["k"])
+        nb = len(b["i"])
+        noft = b["k"] == "c" and nb > 0 and not isa_.falls(T(b["i"][-1]))
+        for t in pt:
+            t["slot_end"] = m["k"] == nb
+            t["blk_noft"] = noft
+            t["slot_blk"] = m["b"]
         for p, t in enumerate(toks):
             if t["t"] == "slot" and t["b"] == m["b"] and t["k"] == m["k"]:
                 toks[p:p] = pt
@@ -194,11 +209,13 @@ def apply_model(spec, mods):
         if n == 0 and len(b["i"]) != 0:
             continue
         idx = [p for p, t in enumerate(toks) if t["t"] == "ins" and t["uid"][0] == "orig" and t["uid"][1] == m["b"] and k <= t["uid"][2] < k + n]
+        idx = [p for p in idx if not toks[p].get("dead")]
         if idx:
             lo, hi = idx[0], idx[-1]
             # CFI directives strictly inside the range and the 'keep' part at its end describe
             # the deleted instructions (property C08); startproc/endproc/remember/restore stay.
-            kill = set(idx)
+            for p in idx:
+                toks[p]["dead"] = "proxy" if m.get("proxy") else "del"
             for p in range(lo, len(toks)):
                 t = toks[p]
                 if t["t"] == "cfi" and t["b"] == m["b"]:
@@ -207,18 +224,17 @@ def apply_model(spec, mods):
                         t["dropped_by"] = mid
                 if t["t"] == "slot" and t["b"] == m["b"] and t["k"] == k + n:
                     break
-            secs[sname] = toks = [t for p, t in enumerate(toks) if p not in kill]
         deleted_count[m["b"]] += n
-        whole = deleted_count[m["b"]] == len(b["i"])
+        whole = deleted_count[m["b"]] == len(b["i"]) and _emptied(toks, m["b"])
         if whole:
             if m.get("proxy"):
                 # labels of the block, and labels that slid onto it, go to a fresh proxy
                 first = next(p for p, t in enumerate(toks) if t["t"] == "slot" and t["b"] == m["b"] and t["k"] == 0)
                 p = first - 1
                 take = []
-                while p >= 0 and toks[p]["t"] != "ins":
+                while p >= 0 and not (toks[p]["t"] == "ins" and not toks[p].get("dead")):
                     t = toks[p]
-                    if t["t"] == "lab" and (t["own"] == m["b"] or t["own"] in wholly_deleted):
+                    if t["t"] == "lab" and (t["own"] == m["b"] or _emptied(toks, t["own"])):
                         take.append(p)
                     p -= 1
                 for p2, t in enumerate(toks):
@@ -226,9 +242,23 @@ def apply_model(spec, mods):
                         take.append(p2)
                 for p3 in take:
                     proxied.add(toks[p3]["n"])
-                secs[sname] = toks = [t for p4, t in enumerate(toks) if p4 not in set(take)]
+                    toks[p3]["proxied"] = True
             wholly_deleted.add(m["b"])
     return secs, proxied, expect
+
+
+def _emptied(toks, bname):
+    """True when block `bname` has no byte left (neither original nor inserted): its labels
+    have slid onto whatever follows."""
+    inside = False
+    for t in toks:
+        if t["t"] == "blk":
+            if inside:
+                return True
+            inside = t["b"] == bname
+        elif inside and t["t"] == "ins" and not t.get("dead"):
+            return False
+    return inside
 
 
 class Listing:
@@ -255,7 +285,11 @@ def flatten(spec, secs, proxied):
     for sname, toks in secs.items():
         pos = 0
         data = b""
-        for t in toks:
+        for ti, t in enumerate(toks):
+            if t.get("dead") or t.get("proxied"):
+                continue
+            if t["t"] == "ins":
+                t["_key"] = (sname, pos)
             if t["t"] == "lab":
                 L.labels[t["n"]] = (sname, pos)
             elif t["t"] == "blk" and t.get("al"):
@@ -265,7 +299,7 @@ def flatten(spec, secs, proxied):
                     L.cfi.setdefault((sname, pos), []).extend(t["d"])
             elif t["t"] == "ins":
                 b, sx = isa_.enc(t["ins"])
-                L.insns[(sname, pos)] = {"ins": t["ins"], "size": len(b), "f": t["f"], "bk": t["bk"], "uid": t["uid"]}
+                L.insns[(sname, pos)] = {"ins": t["ins"], "size": len(b), "f": t["f"], "bk": t["bk"], "uid": t["uid"], "tok": ti}
                 if sx:
                     L.symexprs[(sname, pos + sx[0])] = (sx[2], 0, sx[1])
                 for o, a in t.get("ann", {}).items():
@@ -332,7 +366,9 @@ def flatten(spec, secs, proxied):
 
 def expected(spec, mods):
     secs, proxied, expect = apply_model(spec, mods)
-    return flatten(spec, secs, proxied), expect
+    L = flatten(spec, secs, proxied)
+    L.tokens = secs
+    return L, expect
 
 
 # =============================================================================
